@@ -25,7 +25,18 @@ func runIDs(id string, toks []string) (res string) {
 	}()
 	cont := accessory.NewContainer()
 	var out []string
+	var objs []*accessory.Accessory
 	for ai, spec := range strings.Split(toks[1], ";") {
+		if strings.HasPrefix(spec, "-") {
+			// -k : RemoveAccessory of the k-th accessory OBJECT built so far (a member or one that was refused)
+			k, _ := strconv.Atoi(spec[1:])
+			if k < len(objs) {
+				cont.RemoveAccessory(objs[k])
+			}
+			objs = append(objs, nil)
+			out = append(out, fmt.Sprintf("a%d=rm", ai))
+			continue
+		}
 		p := strings.SplitN(spec, ":", 2)
 		eid, _ := strconv.Atoi(p[0])
 		a := accessory.New(accessory.Info{Name: fmt.Sprintf("acc%d", ai), ID: uint64(eid)}, accessory.TypeOther)
@@ -45,7 +56,13 @@ func runIDs(id string, toks []string) (res string) {
 					late = append(late, [2]int{len(svcs), k})
 					name = name[:i] + name[j:]
 				}
-				if i := strings.Index(name, "~"); i >= 0 {
+				linkOnly := false
+				if i := strings.Index(name, "~!"); i >= 0 {
+					// linked to a service that is never added to the accessory (its id stays 0; the ids of the others
+					// must still be the same on every build)
+					linkOnly = true
+					name = name[:i]
+				} else if i := strings.Index(name, "~"); i >= 0 {
 					link, _ = strconv.Atoi(name[i+1:])
 					name = name[:i]
 				}
@@ -68,6 +85,11 @@ func runIDs(id string, toks []string) (res string) {
 				if link >= 0 && link < len(svcs) {
 					s.AddLinkedService(svcs[link])
 				}
+				if linkOnly {
+					s.AddLinkedService(svcRegistry["NewBatteryService"]())
+					s.AddLinkedService(svcRegistry["NewSpeaker"]())
+					s.AddLinkedService(svcRegistry["NewLightbulb"]())
+				}
 				svcs = append(svcs, s)
 				a.AddService(s)
 			}
@@ -79,6 +101,7 @@ func runIDs(id string, toks []string) (res string) {
 				svcs[l[0]].AddCharacteristic(c.Characteristic)
 			}
 		}
+		objs = append(objs, a)
 		if err := cont.AddAccessory(a); err != nil {
 			out = append(out, fmt.Sprintf("a%d=rej", ai))
 			continue
@@ -97,6 +120,21 @@ func runIDs(id string, toks []string) (res string) {
 	if err != nil {
 		return strings.Join(out, " ") + " json=err"
 	}
+	// which service / characteristic TYPE has which id, and which ids are linked (compared between two builds)
+	var sig []string
+	for _, a := range cont.Accessories {
+		for _, sv := range a.Services {
+			var l []string
+			for _, x := range sv.Linked {
+				l = append(l, fmt.Sprint(x.ID))
+			}
+			sig = append(sig, fmt.Sprintf("%d.%s=%d>%s", a.ID, sv.Type, sv.ID, strings.Join(l, "+")))
+			for _, ch := range sv.Characteristics {
+				sig = append(sig, fmt.Sprintf("%d.%s=%d", a.ID, ch.Type, ch.ID))
+			}
+		}
+	}
+	out = append(out, "sig="+strings.Join(sig, ","))
 	var g map[string]interface{}
 	json.Unmarshal(b, &g)
 	wf := "ok"
@@ -132,7 +170,7 @@ func runIDs(id string, toks []string) (res string) {
 			ids = append(ids, fmt.Sprint(sm["iid"]))
 			if l, ok := sm["linked"].([]interface{}); ok {
 				for _, x := range l {
-					if f, ok := x.(float64); !ok || f == 0 {
+					if f, ok := x.(float64); !ok || (f == 0 && !strings.Contains(toks[1], "~!")) {
 						bad("linked-service-id-zero")
 					}
 				}
